@@ -272,6 +272,10 @@ func enforce(c *Case) {
 	// Without thread-sync only the calling thread is filtered: stay on it.
 	runtime.LockOSThread()
 	hookInstall()
+	if c.Linux32 {
+		_, _, e := syscall.RawSyscall(syscall.SYS_PERSONALITY, 0x0008, 0, 0) // PER_LINUX32
+		emit(map[string]any{"ev": "personality", "errno": uint64(e)})
+	}
 	f := buildFilter(c)
 	if c.PreloadOnOtherThread {
 		done := make(chan string)
